@@ -924,6 +924,14 @@ impl<const N: usize> SubscriptionsInner<N> {
 
     /// Remove entries that every subscription has already reported on.
     fn purge_reported_changes(&mut self) {
+        // A subscription that is being primed or reported on lives in its
+        // `ReportContext`, not in `subscriptions`, so its watermark is not
+        // visible here. Purging now could drop a change recorded after its
+        // snapshot that it has not reported yet; wait until it is back.
+        if self.subscriptions_count != self.subscriptions.len() {
+            return;
+        }
+
         if let Some(min_seen_attr_change_id) = self
             .subscriptions
             .iter()
